@@ -284,7 +284,18 @@ impl Product for Model {
         match res {
             Ok(real) => {
                 next.real = real;
-                let bad = check(&next.real, &next.model);
+                let mut bad = check(&next.real, &next.model);
+                // copies: a collection overwritten through Clone::clone_from is the source collection (both directions
+                // between the state before and after the operation)
+                if bad.is_none() {
+                    let mut a = next.real.clone();
+                    a.clone_from(&s.real);
+                    let mut b = s.real.clone();
+                    b.clone_from(&next.real);
+                    if format!("{a:?}") != format!("{:?}", s.real) || format!("{b:?}") != format!("{:?}", next.real) {
+                        bad = Some(("copy-differs".into(), format!("clone_from between {:?} and {:?} does not reproduce its source: {a:?} / {b:?}", s.real, next.real)));
+                    }
+                }
                 StepOut { next, bad }
             }
             Err(p) => StepOut {
@@ -399,7 +410,7 @@ pub fn run(tier: Tier) -> i32 {
             "stateright BFS over (real ControlPoints, linear-scan reference); {n_ops} add operations, then a second search over the \
              32 operations at the nearly-equal times 0, 1e-17, 1, 1+2^-52; \
              after every transition: lists == reference, strictly increasing times, four lookups at {} probe \
-             times == reference. A case is one transition; distinct_nontrivial = distinct canonical product states \
+             times == reference; clone_from between the states before and after reproduces its source. A case is one transition; distinct_nontrivial = distinct canonical product states \
              (each holds a different pair of list contents) as counted by the checker",
             PROBES.len()
         ),
